@@ -297,7 +297,7 @@ func TestHarness(t *testing.T) {
 		}
 		c := &Case{Idx: idx, Family: family, Stage: p.stage, ICaps: p.icaps, Inputs: p.inputs, Gen: p.gen}
 		// marker: if the process dies inside the case the runner knows which one
-		enc.Encode(map[string]int{"begin": idx})
+		enc.Encode(map[string]any{"begin": idx, "plan": map[string]any{"stage": p.stage, "icaps": p.icaps, "inputs": p.inputs, "gen": p.gen}})
 		w.Flush()
 		runCase(t, c, p.sched, p.maxMoves, p.drain, func() {
 			enc.Encode(c)
